@@ -665,8 +665,10 @@ fn apply_op(r: &Replica, txn: &mut TransactionMut, op: &SOp, array: bool) {
 
 const SNAP_DEPTH: usize = 4;
 /// Two-client scripts (every assignment of the steps to the clients that
-/// involves client 2) are enumerated to this depth.
+/// involves client 2) are enumerated to this depth; with `OffsetKind::Utf16`
+/// one step less (the default run has to stay within a minute).
 const SNAP_DEPTH_TWO: usize = 4;
+const SNAP_DEPTH_TWO_UTF16: usize = 3;
 
 /// Every valid next operation on `content`.
 fn snap_alphabet(content: &Content, utf16: bool, step_no: usize) -> Vec<SOp> {
@@ -759,7 +761,7 @@ pub fn search_snapshot(r: &mut Runner) -> Result<(), XStop> {
     add(false, true, SNAP_DEPTH, false);
     add(true, false, SNAP_DEPTH, false);
     add(false, false, SNAP_DEPTH_TWO, true);
-    add(false, true, SNAP_DEPTH_TWO, true);
+    add(false, true, SNAP_DEPTH_TWO_UTF16, true);
     add(true, false, SNAP_DEPTH_TWO, true);
     // shortest scripts first, whatever the variant
     cases.sort_by_key(|c| c.steps.len());
@@ -1367,7 +1369,7 @@ impl SvCase {
 const SV_MAX_EDITS: usize = 4;
 /// Script length (edit and sync steps together) for two and for three replicas.
 const SV_DEPTH_2: usize = 5;
-const SV_DEPTH_3: usize = 3;
+const SV_DEPTH_3: usize = 4;
 
 /// Step templates; the chunk of an insertion is derived from its position in
 /// the script (`a..`, `bb`, ..) so that every insertion is recognisable.
